@@ -159,7 +159,7 @@ class C02(SimSpec):
     n = {"quick": 360, "thorough": 5000}
     rule = (
         "random DAGs with edge density biased upward, batch sizes chosen so that blockers land in the same batch (try-add-blocked), another batch, "
-        "another group and several rounds later; HPC and local mode; at every job launch the driver reads the result rows on disk; "
+        "another group and several rounds later; HPC and local mode; a slice followed by resubmit-jobs (order among the rerun jobs); at every job launch the driver reads the result rows on disk; "
         "non-trivial = run with >= 1 dependency edge whose ends ran in different batches or >= 1 inside one batch (local: >= 1 edge), and >= 2 launches"
     )
 
@@ -176,7 +176,24 @@ class C02(SimSpec):
             scen["groups"][0]["time_based"] = False
             scen["user"] = {}
         scen["policy"]["finish_w"] = rng.choice([0.1, 0.3, 1.0])  # blockers finish late
+        if i % 6 == 3:
+            # dependency order must also hold among the jobs that a resubmission reruns
+            fl = lambda: {"failed": True, "missing": True, "successful": rng.random() < 0.4}
+            scen["resubmit"] = {"rounds": [fl()] + ([fl()] if rng.random() < 0.3 else [])}
+            for j in scen["jobs"]:
+                if rng.random() < 0.35:
+                    j["rc"] = rng.choice([1, 2])
+            for g in scen["groups"]:
+                if g["procs_opt"] == 1:
+                    g["procs_opt"] = 2
         return scen
+
+    def tasks(self, tier, seed):
+        out = SimSpec.tasks(self, tier, seed)
+        for t in out:
+            if t["args"]["scen"].get("resubmit"):
+                t["args"]["cls"] = "sim.resub:ResubSim"
+        return out
 
     def nontrivial(self, t, r):
         if t["args"]["scen"].get("mode") == "local":
@@ -189,6 +206,7 @@ class C02(SimSpec):
         c["dependency_edges_across_batches"] = total(ok, "edges_cross")
         c["dependency_edges_inside_a_batch"] = total(ok, "edges_in")
         c["local_mode_runs"] = sum(1 for t in tasks if t["args"]["scen"].get("mode") == "local")
+        c["runs_with_resubmission"] = sum(1 for r in ok if (r.get("epochs") or 1) > 1)
         return c
 
     def floors(self, cov):
@@ -237,6 +255,15 @@ class C03(SimSpec):
                     for j in scen["jobs"]:
                         j["group"] = scen["groups"][0]["name"]
                     scen["user"] = {}
+                if v == 2:
+                    # collection race variant: rounds collect the result files of batches that are still running jobs, with
+                    # delays between a collector's read and its delete of a node file
+                    scen["policy"]["park_p"] = vr.choice([0.3, 0.5])
+                    scen["policy"]["time_w"] = 0.5
+                    scen["user"] = {"try_submit": vr.choice([2, 4]), "show_status": 0, "p": 0.04, "late_try": 2}
+                    for g in scen["groups"]:
+                        g["time_based"] = False
+                        g["batch"] = vr.randint(3, 6)
                 if v == 1:
                     # end-of-run race variant: late user rounds delayed at their critical points
                     endgame(scen, vr, keep_dag=True)
